@@ -133,7 +133,7 @@ def _r1(ctx):
                      "with the artificial zero load, but pass 2 continues with the first real sample. A last sample that is not a "
                      "reversal of the repeated sequence (e.g. 100,-60,40,-20,60: -20 -> 60 -> 100) is flushed as if it were one, and "
                      "a last sample between zero and the first sample is held back although it is a reversal" % norm_text(dbl[0].value),
-                     text=norm_text(dbl[0]))
+                     text="look-ahead = A ++ A (zero-prefixed samples repeated)")
     else:
         ctx.violated(fa, dbl[0], "the look-ahead sequence for the flush decision is %s; it must be the pass-1 samples followed by what "
                      "pass 2 processes (the same samples without the prepended zero)" % norm_text(dbl[0].value),
